@@ -12,6 +12,7 @@ import Dicom.Spec.PduGrammar
 import Dicom.Model.Provider
 import Dicom.Model.Negotiation
 import Dicom.Model.Services
+import Dicom.Model.Storage
 /-! Line-protocol driver: one op per input line, one output line per op.
 Imports models and specifications only (never Generated or Props), core Lean only. -/
 open Dicom
@@ -231,6 +232,19 @@ def step (line : String) : String :=
   | "dec" :: noDs :: groups =>
     match (groups.mapM fun g => (g.splitOn ",").mapM parseFrag) with
     | some gs => " ".intercalate (decTrace (noDs = "1") {} gs)
+    | none => "bad-op"
+  | "dir-ops" :: ops =>
+    -- the storage directory under stores (s:uid:contenthex) and removals (r:uid:k); output: the files, sorted by name
+    let parse (o : String) : Option Store.DirOp :=
+      match o.splitOn ":" with
+      | ["s", u, c] => (hexToBytes c).map (Store.DirOp.store u)
+      | ["r", u, k] => k.toNat?.map fun k => Store.DirOp.remove (u, k)
+      | _ => none
+    match ops.mapM parse with
+    | some os =>
+      let d := Store.applyOps [] os
+      let names := d.map fun e => s!"{e.1.1}#{e.1.2}={bytesToHex e.2}"
+      " ".intercalate (names.toArray.qsort (· < ·)).toList
     | none => "bad-op"
   | ["limits", own, peer] =>
     match own.toNat?, peer.toNat? with
